@@ -532,5 +532,6 @@ func extractC17() *lean {
 	extractC17c(l)
 	extractC17d(l)
 	extractC17e(l)
+	extractC17f(l)
 	return l
 }
